@@ -23,14 +23,14 @@ type Profile struct {
 	MaxOps       int
 	Keys         [2]int
 	NoPanic      bool
-	BoundOnly    bool // size- or weight-bounded configurations only, maximum well below the key space
-	ReadBursts   bool // generate runs of 17-40 reads (overflowing a 16-slot read buffer stripe)
-	WheelBias    bool // custom expiry: short creation TTLs (wheel level 0/1), reads extending to a coarser level
-	SmallReadBuf bool // one read-buffer stripe (16 slots): read events get dropped
+	BoundOnly    bool   // size- or weight-bounded configurations only, maximum well below the key space
+	ReadBursts   bool   // generate runs of 17-40 reads (overflowing a 16-slot read buffer stripe)
+	WheelBias    bool   // custom expiry: short creation TTLs (wheel level 0/1), reads extending to a coarser level
+	SmallReadBuf bool   // one read-buffer stripe (16 slots): read events get dropped
 	AlsoProp     string // every violation of a run of this profile also belongs to this property (C17: results with a saturated read buffer)
-	NoCustomExp  bool // only the built-in expiry policies (reads never shorten a deadline)
-	AccessBias   bool // prefer expire-after-access among the built-in policies
-	MidBound     bool // maximum between a third and the whole of the key space (eviction passes with several victims and arrivals)
+	NoCustomExp  bool   // only the built-in expiry policies (reads never shorten a deadline)
+	AccessBias   bool   // prefer expire-after-access among the built-in policies
+	MidBound     bool   // maximum between a third and the whole of the key space (eviction passes with several victims and arrivals)
 }
 
 func logUniform(r *simrt.Rng, lo, hi int64) int64 {
